@@ -241,7 +241,10 @@ def judge(rec: Recorder, s: str, tag: str) -> None:
         else:
             raw = ru.encode("utf-8", "surrogatepass")
             got = pct_decode((u.auth or "").encode("utf-8", "surrogatepass"))
-            if got not in (raw, pct_decode(raw)):
+            # (a userinfo mixing valid and invalid '%' is by design treated as unencoded: every '%' is escaped after
+            # the hex digits of the valid escapes were upper-cased, so one decoding gives the raw text in that spelling)
+            raw_uc = re.sub(rb"%[0-9A-Fa-f]{2}", lambda m: m.group(0).upper(), raw)
+            if got not in (raw, pct_decode(raw), raw_uc):
                 disagreements.append("userinfo")
         if disagreements:
             rec.fail(case, "reference-disagreement", {"fields": disagreements, "ref": {"host": want_host, "port": want_port, "userinfo": ru}, "got": {"host": u.host, "port": u.port, "auth": u.auth}}, f"independent reading: host={want_host!r} port={want_port!r} userinfo={ru!r}; parse_url: host={u.host!r} port={u.port!r} auth={u.auth!r}")
